@@ -1080,6 +1080,40 @@ vbi3_bit_slicer_set_params	(vbi3_bit_slicer *	bs,
 		break;
 	}
 
+	{
+		unsigned int look_ahead;
+
+		/* The payload loops have no data end check. Relative to
+		   the sample where the CRI search stops they read the
+		   sample of the last FRC or payload bit and its right
+		   neighbour (linear interpolation); the low pass slicer
+		   has already advanced by one sample and reads a window
+		   of (1 << LP_AVG) samples instead. The CRI search limit
+		   above only leaves room for data_samples, which can be
+		   less. Stop searching early enough that all samples read
+		   lie within samples_per_line. */
+		look_ahead = ((bs->phase_shift
+			       + ((data_bits > 0) ? data_bits - 1 : 0)
+			       * bs->step) >> 8) + 1;
+
+		if (low_pass_bit_slicer_Y8 == bs->func)
+			look_ahead += (1 << LP_AVG) - 1;
+
+		if (sample_offset + look_ahead >= samples_per_line) {
+			warning (&bs->log,
+				 "%u samples_per_line too small for "
+				 "sample_offset %u + look-ahead of "
+				 "%u samples.",
+				 samples_per_line, sample_offset,
+				 look_ahead);
+			goto failure;
+		}
+
+		bs->cri_samples = MIN (bs->cri_samples,
+				       samples_per_line - sample_offset
+				       - look_ahead);
+	}
+
 	return TRUE;
 
  failure:
